@@ -58,7 +58,7 @@ func c18Members() []bMember {
 		{JSON: `{"jsonrpc":"1.0","method":"echo","params":["y"]}`, ID: "null", Kind: "invalid", WantErr: true},
 		{JSON: `{"jsonrpc":"2.0","id":9,"method":"nope"}`, ID: "9", Kind: "unknown", WantErr: true},
 		{JSON: `{"jsonrpc":"2.0","id":8}`, ID: "8", Kind: "invalid", WantErr: true},
-		{JSON: `{"jsonrpc":"2.0","method":"nope","params":["u"]}`, Kind: "unote"}, // notification for an unknown method: no response, no handler
+		{JSON: `{"jsonrpc":"2.0","method":"nope","params":["u"]}`, Kind: "unote"},                    // notification for an unknown method: no response, no handler
 		{JSON: `{"jsonrpc":"2.0","id":null,"method":"echo","params":["z"]}`, Kind: "note", Tag: "z"}, // a notification spelled with a null id
 		// invalid for an unknown extra member; the member names are unique markers: an error object is the
 		// member's own, so it never mentions a marker of another member
@@ -357,7 +357,7 @@ func c18ConcurrentX(bodyIdx []int, hangup bool, b Bounds) *Scenario {
 					vs.AwaitQuiescence()
 				}
 				var j Join
-				ctx0, cancel0 := context.WithCancel(context.Background())
+				ctx0, cancel0 := cancelCauseCtx()
 				defer cancel0()
 				if hangup {
 					j.Go("hangup", func() { vs.Event("env", "hangup"); cancel0() })
